@@ -6,6 +6,7 @@
 #include <string.h>
 #include <assert.h>
 #include "utf8_decode.h"
+#include <eav/verif_hooks.h>
 
 #define msg_warn(...)   fprintf (stderr, __VA_ARGS__)
 #define msg_ok(...)     fprintf (stdout, __VA_ARGS__)
@@ -73,8 +74,11 @@ sanitize_utf8 (const char *text, size_t length)
         sanitized_size = need;
     }
 
-    for (size_t i = 0; i < length; i++) {
+    for (size_t i = 0; i < length; i++)
+    EAV_VERIF_LOOP(sanitize_utf8)
+    {
         unsigned char c = (unsigned char) text[i];
+        EAV_VERIF_STEP(sanitize_utf8)
 
         if (c < 0x20 || c == 0x7f) {
             sanitized[pos++] = '0';
